@@ -127,6 +127,12 @@ func (x *Exec) registerSpec(sf *SpecFile) {
 	for _, im := range sf.Immutable {
 		x.immutableFields[sf.Pkg+"."+im] = true
 	}
+	for _, oi := range sf.ObjInvs {
+		if x.objInvs == nil {
+			x.objInvs = map[string]*ObjInv{}
+		}
+		x.objInvs[sf.Pkg+"."+oi.Type] = oi
+	}
 	for _, g := range sf.Ghosts {
 		g.SF = sf
 		x.ghosts[sf.Pkg+"::"+g.Name] = g
